@@ -216,8 +216,9 @@ class Observer(object):
 class AI(object):
     def __init__(self, graph, observer=None, partition=None, max_parts=48, max_depth=12, uninit_locals=True,
                  inline=None, ptr_partition=True, unroll=None, unroll_cap=48, assume_returns=None,
-                 assume_member=None, method_model=None, loop_once=None, assume_loc=None, pure_memo=False):
+                 assume_member=None, method_model=None, loop_once=None, assume_loc=None, pure_memo=False, auto_unroll=False):
         self.pure_memo = pure_memo
+        self.auto_unroll = auto_unroll
         self.G = graph
         self.obs = observer or Observer()
         self.partition = partition or (lambda loc, v: None)
@@ -351,8 +352,8 @@ class AI(object):
                     if m.kind == 'loop':
                         visits[m.id] = visits.get(m.id, 0) + 1
                         itv = s2.mem.get(('iter', id(m.ast)))
-                        unrolling = self.unroll(f) and isinstance(itv, Int) and itv.const() is not None and \
-                            itv.const() < self.unroll_cap - 1
+                        unrolling = self._unrolled(f, m.ast) and isinstance(itv, Int) and itv.const() is not None and \
+                            itv.const() < self._unroll_cap(f, m.ast) - 1
                         if visits[m.id] > 6 and not unrolling:
                             s2 = self.widen(tgt, s2, thr)
                     if self.pjoin(tgt, s2):
@@ -425,11 +426,17 @@ class AI(object):
                                     av_ = self.assume_loc(kk) if self.assume_loc else None
                                     st.mem[kk] = av_ if av_ is not None else (self.top_of(t_) if t_ else TOP)
             return [(m, st) for (m, _) in n.succs]
-        if k == 'loop' and self.unroll(f):
+        if self.auto_unroll and not self.unroll(f):
+            # partitions by iteration count live only inside their (small counted) loop
+            for k_ in [k_ for k_ in st.mem if k_[0] == 'iter']:
+                ln = self._loop_nodes(g, f).get(k_[1])
+                if ln is not None and n.id not in ln:
+                    del st.mem[k_]
+        if k == 'loop' and self._unrolled(f, n.ast):
             loc = ('iter', id(n.ast))
             cur = st.mem.get(loc)
             c = cur.const() if isinstance(cur, Int) else None
-            st.mem[loc] = I(min((c if c is not None else -1) + 1, self.unroll_cap))
+            st.mem[loc] = I(min((c if c is not None else -1) + 1, self._unroll_cap(f, n.ast)))
             return [(m, st) for (m, _) in n.succs]
         if k in ('entry', 'join', 'loop', 'exit'):
             return [(m, st) for (m, _) in n.succs]
@@ -560,6 +567,28 @@ class AI(object):
                 out.append(s)
             return out
         out = []
+        m_arr = re.match(r'^(?:const )?(?:unsigned |signed )?(?:char|short|int|long|long long)\s*\[(\d+)\]$', (dtype(d) or '').strip())
+        pinit = peel(init, explicit=False)
+        if m_arr and pinit is not None and pinit.get('kind') == 'InitListExpr' and int(m_arr.group(1)) <= 16 and \
+                d.get('storageClass') != 'static':
+            # a small local array of integers with a brace initialiser: element i is given, the rest are zero
+            n_ = int(m_arr.group(1))
+            elems = [c for c in kids(pinit) if c.get('kind') != 'ImplicitValueInitExpr'] if not pinit.get('array_filler') else \
+                [c for c in kids(pinit)[1:]]
+            cur = [st]
+            et = re.sub(r'\s*\[\d+\]$', '', (dtype(d) or '').strip())
+            for i_ in range(n_):
+                nxt = []
+                for s_ in cur:
+                    if i_ < len(elems) and elems[i_].get('kind') not in ('ImplicitValueInitExpr',):
+                        for (v_, s2) in self.eval(elems[i_], s_, u):
+                            self.assign(loc + ('[%d]' % i_,), v_, s2, et, elems[i_], u)
+                            nxt.append(s2)
+                    else:
+                        s_.mem[loc + ('[%d]' % i_,)] = I(0)
+                        nxt.append(s_)
+                cur = nxt
+            return cur
         if dtype(d) in ('bool', 'const bool') and self._is_predicate(init):
             # a named test: keep the local correlated with the operands it was computed from
             if not hasattr(self, 'pred_locs'):
@@ -1969,6 +1998,71 @@ class AI(object):
                         ok = False
             f['_small'] = ok
         return f['_small']
+
+    def _unrolled(self, f, loop_ast):
+        return self.unroll(f) or (self.auto_unroll and self._small_counted(loop_ast))
+
+    def _unroll_cap(self, f, loop_ast):
+        return self.unroll_cap if self.unroll(f) else 10
+
+    def _small_counted(self, loop):
+        """A loop whose condition bounds an integer local by a small literal (i < 3): a handful of iterations, kept apart."""
+        if loop is None:
+            return False
+        if '_smallcnt' not in loop:
+            ok = False
+            inner = loop.get('inner') or []
+            cond = None
+            if loop.get('kind') == 'ForStmt' and len(inner) == 5:
+                cond = inner[2]
+            elif loop.get('kind') == 'WhileStmt' and len(inner) >= 2:
+                cond = inner[-2]
+            if cond and cond.get('kind'):
+                fo = self.folder(loop['_u'])
+                for y in walk(cond):
+                    if y.get('kind') == 'BinaryOperator' and y.get('opcode') in ('<', '<=', '!=', '>', '>='):
+                        a, b = kids(y)
+                        for (v_, c_) in ((a, b), (b, a)):
+                            cv = fo.fold(c_)
+                            pv = peel(v_)
+                            if cv is not None and abs(cv) <= 8 and pv is not None and pv.get('kind') == 'DeclRefExpr' and \
+                                    (pv.get('referencedDecl') or {}).get('kind') == 'VarDecl' and int_type(dtype(pv) or ''):
+                                ok = True
+            loop['_smallcnt'] = ok
+        return loop['_smallcnt']
+
+    def _loop_nodes(self, g, f):
+        """{id(loop ast): ids of the CFG nodes inside that loop (natural loop of its head)}."""
+        key = '_loopnodes'
+        if key not in f:
+            out = {}
+            byid = {n_.id: n_ for n_ in g.live}
+            preds = {}
+            for n_ in g.live:
+                for (m_, _) in n_.succs:
+                    preds.setdefault(m_.id, []).append(n_.id)
+            for h in g.live:
+                if h.kind != 'loop' or h.ast is None:
+                    continue
+                fwd = set()
+                stack = [m_.id for (m_, _) in h.succs]
+                while stack:
+                    i_ = stack.pop()
+                    if i_ in fwd or i_ == h.id:
+                        continue
+                    fwd.add(i_)
+                    stack.extend(m_.id for (m_, _) in byid[i_].succs if i_ in byid)
+                bwd = set()
+                stack = list(preds.get(h.id, []))
+                while stack:
+                    i_ = stack.pop()
+                    if i_ in bwd or i_ == h.id:
+                        continue
+                    bwd.add(i_)
+                    stack.extend(preds.get(i_, []))
+                out[id(h.ast)] = (fwd & bwd) | {h.id}
+            f[key] = out
+        return f[key]
 
     def _loop_ids(self, f):
         if '_loopids' not in f:
